@@ -1166,6 +1166,12 @@ class Fxp():
     # behaviors
 
     def _overflow_action(self, new_val, val_min, val_max):
+        if self.n_word > 53 and isinstance(new_val, (np.ndarray, np.generic)) and new_val.dtype != object and \
+            np.issubdtype(new_val.dtype, np.floating) and new_val.size > 0 and np.all(np.isfinite(new_val)) and np.max(np.abs(new_val)) >= 2**53:
+            # a bound of more than 53 bits is not a float64 value (NumPy would round it for the comparisons and the clamp):
+            # the rounded (integral) floats are compared and clamped as Python integers
+            new_val = np.array(list(map(int, np.asarray(new_val).flatten())), dtype=object).reshape(np.shape(new_val))
+
         if np.any(new_val > val_max):
             self.status['overflow'] = True
             self._run_callbacks('on_status_overflow')
@@ -1202,8 +1208,15 @@ class Fxp():
         elif np.issubdtype(np.array(val).dtype, np.object_):
             # object arrays hold Python integers (nothing to round) and/or floats, which are rounded one by one
             _val = np.array(val)
-            rval = np.array([v if isinstance(v, (int, np.integer)) else (self._round_exact(v, method) if isinstance(v, Fraction) else self._round(np.float64(v), method=method)) for v in _val.flatten()], 
-                            dtype=object).reshape(_val.shape)
+            def _round_item(v):
+                if isinstance(v, (int, np.integer)):
+                    return v
+                if isinstance(v, Fraction):
+                    return self._round_exact(v, method)
+                r = self._round(np.float64(v), method=method)
+                # (a rounded float as a Python integer: its comparison with a bound of more than 53 bits is then exact)
+                return int(r) if method and np.isfinite(r) else r
+            rval = np.array([_round_item(v) for v in _val.flatten()] + [None], dtype=object)[:-1].reshape(_val.shape)
         elif method == 'around':
             rval = np.around(val)
         elif method == 'floor':
